@@ -575,7 +575,7 @@ where
                               data: &mut T|
          -> Result<BVector<N, D>, UserError> {
             bdf.scratch_pad = -(bdf.derivative)(t, y, data)? * bdf.dt * bdf.lower_coefficients[0];
-            for (ind, &coeff) in bdf.higher_coefficients.column(0).iter().enumerate().skip(1) {
+            for (ind, &coeff) in bdf.lower_coefficients.column(0).iter().enumerate().skip(1) {
                 bdf.scratch_pad += &bdf.prev_values[O - ind].1 * coeff;
             }
             Ok(
@@ -629,7 +629,7 @@ where
         // and reset the time to what it was previously.
         if self.yield_memory == O + 1 {
             // We took Order - 1 runge kutta steps at this dt
-            self.time -= self.dt - self.order;
+            self.time -= self.dt * self.order;
             self.state = self.save_state.clone();
         }
 
